@@ -70,7 +70,10 @@ let () = read_lines_iter (fun line ->
     let (t, nx) = tree_new (ro = "1") !next in
     next := nx; add_version "0" t; print_endline "ok"
   | ["begin"; v] ->
-    (match Hashtbl.find_opt versions v, !live with
+    let base = match Hashtbl.find_opt versions v with
+      | Some t -> Some t
+      | None -> if String.length v > 1 && v.[0] = 'c' then Hashtbl.find_opt clones (String.sub v 1 (String.length v - 1)) else None in
+    (match base, !live with
      | Some t, None -> pending := None; live_fh := (v = !head); live := Some (tree_txn t !next); print_endline "ok"
      | _ -> e ())
   | ("ins" | "mod") :: k :: v :: rest when List.length rest <= 2 ->
